@@ -347,6 +347,10 @@ class Parser(object):
                           tags=self.tags)
         self.rule = rule
         self.scenario_container = rule
+        if not self.feature and self.variant != "rule":
+            # -- HINT: Only parse_rule() may parse a rule without a feature.
+            raise ParserError(u"Rule requires a Feature",
+                              self.line, self.filename, line)
         self.statement = rule
         if self.feature:
             # -- HINT: No feature exists if parse_rule() is used.
@@ -355,6 +359,9 @@ class Parser(object):
         self.tags = []
 
     def _build_background_statement(self, keyword, line):
+        if not self.scenario_container:
+            raise ParserError(u"Background requires a Feature or Rule",
+                              self.line, self.filename, line)
         if self.tags:
             msg = u"Background supports no tags: @%s" % (u" @".join(self.tags))
             raise ParserError(msg, self.line, self.filename, line)
@@ -634,6 +641,9 @@ class Parser(object):
             self.state = State.BACKGROUND
             return True
 
+        if self.rule is None:
+            # -- HINT: parse_rule() is used with text that contains no rule.
+            return False
         self.rule.description.append(line)
         return True
 
@@ -653,6 +663,9 @@ class Parser(object):
         line = line.strip()
         step = self.parse_step(line)
         if step:
+            if self.statement is None:
+                # -- HINT: parse_scenario() is used with text w/o scenario.
+                return False
             # -- FIRST STEP DETECTED: End collection of description-part.
             self.state = State.STEPS
             self.statement.steps.append(step)
@@ -668,6 +681,9 @@ class Parser(object):
         # -- OTHERWISE: Add description line.
         # pylint: disable=E1103
         #   E1103   Instance of "Background" has no "description" member...
+        if self.statement is None:
+            # -- HINT: parse_scenario() is used with text w/o scenario.
+            return False
         self.statement.description.append(line)
         return True
 
